@@ -363,10 +363,16 @@ def install(it):
     def call_native(fn, args, kwargs):
         slf = getattr(fn, "__self__", None)
         name = getattr(fn, "__name__", "")
+        if fn is str.__format__ and args and isinstance(it.unbase(args[0]), SStr) and (len(args) < 2 or args[1] == ""):
+            return it.unbase(args[0])  # format(text, "") is the text
         if isinstance(slf, str) and name == "format" and not all(it.concrete(a) for a in list(args) + list(kwargs.values())):
             return EngFormatter(it).run(slf, args, kwargs)
         if isinstance(slf, str) and name == "format_map" and args and not it.concrete(args[0]):
-            raise Unsupported("format_map with heap mapping")
+            class MapFormatter(EngFormatter):
+                def get_value(self_, key, a_, k_):
+                    return it.getitem(args[0], key)  # mapping[key] through the interpreter (dict subclasses with __missing__)
+
+            return MapFormatter(it).run(slf, (), {})
         if isinstance(slf, str) and name == "join" and args and not isinstance(args[0], (list, tuple, str, dict, set)):
             args = [list(it.iterate(args[0]))] + list(args[1:])  # materialise iterators (reversed(...), generators) to look at the elements
         if isinstance(slf, str) and name == "join" and args and not it.concrete(args[0]):
